@@ -150,6 +150,9 @@ Proof.
     rewrite app_length in Hl. simpl in Hl. lia.
 Qed.
 
+Lemma split_one c s : split s [c] = split_on c s [].
+Proof. unfold split. apply split_fuel_split_on. lia. Qed.
+
 Lemma split_comma s : split s [44] = split_on 44 s [].
 Proof. unfold split. apply split_fuel_split_on. lia. Qed.
 
